@@ -1,6 +1,6 @@
 (* Bounded RankTree theorems: the bound on the number of leaves is part of every
    statement; the proofs evaluate a boolean check with vm_compute and lift it with
-   forallb_forall.  Also the F13 witness (out-of-range shape rank accepted for n = 1). *)
+   forallb_forall.  Also the historical F13 witness about the pinned variant. *)
 From Coq Require Import List ZArith Bool Lia Permutation.
 From TskVerif Require Import Base.Common C15.Combination C15.Partitions C15.RankTree C15.TopoSpec.
 Import ListNotations.
@@ -237,15 +237,17 @@ Example rank_child_order_ex :
 Proof. vm_compute. split; [|reflexivity]. auto 10. Qed.
 
 (* ------------------------------------------------------------------------------
-   F13: an out-of-range shape rank is accepted when n = 1.  num_shapes 1 = 1, so the only
-   valid rank is (0,0); Tree.unrank(1, (5, 0)) nevertheless returns the one-leaf tree,
-   whose rank is (0,0) <> (5,0). *)
-Lemma unrank_oor_n1_refuted_w :
+   F13 (historical, repaired by /repo commit 7829e32): the PINNED variant of
+   children_shape_ranks accepted every shape rank when n = 1 (num_shapes 1 = 1, so only
+   rank 0 is valid); the current model -- the one the correspondence uses -- rejects it. *)
+Lemma unrank_oor_n1_pinned_refuted_w :
   exists s, num_shapes 1 = Ok 1 /\ s >= 1 /\
-            tree_unrank 1 s 0 = Ok (PL 0) /\ tree_rank (PL 0) = Ok (0, 0).
+            children_shape_ranks_pinned s 1 = Ok ([], []) /\
+            children_shape_ranks s 1 = Err E_RANK /\
+            tree_unrank 1 s 0 = Err E_RANK.
 Proof. exists 5. vm_compute. repeat split; discriminate. Qed.
 
-(* for every n in 2..6 the first out-of-range shape rank and label rank are rejected
+(* for every n in 1..5 the first out-of-range shape rank and label rank are rejected
    (the unbounded statements are in OorProofs.v) *)
 Definition chk_oor (n : Z) : bool :=
   match num_shapes n with
@@ -258,5 +260,5 @@ Definition chk_oor (n : Z) : bool :=
   | _ => false
   end.
 
-Lemma chk_oor_all : forallb chk_oor (zrange 2 5) = true.
+Lemma chk_oor_all : forallb chk_oor (zrange 1 5) = true.
 Proof. vm_compute. reflexivity. Qed.
